@@ -15,6 +15,7 @@ import (
 	"k8s.io/apimachinery/pkg/runtime"
 
 	metav1 "k8s.io/apimachinery/pkg/apis/meta/v1"
+	"k8s.io/apimachinery/pkg/types"
 )
 
 const (
@@ -81,7 +82,17 @@ type ConfigurationProblem struct {
 func compareConfigurationProblems(problem1 *ConfigurationProblem, problem2 *ConfigurationProblem) bool {
 	return problem1.IsError == problem2.IsError &&
 		problem1.Reason == problem2.Reason &&
-		problem1.Message == problem2.Message
+		problem1.Message == problem2.Message &&
+		problemObjectUID(problem1) == problemObjectUID(problem2)
+}
+
+// problemObjectUID returns the UID of the object the problem is about. A problem is reported once per object:
+// an object that was deleted and created again under the same name has not been told anything yet.
+func problemObjectUID(problem *ConfigurationProblem) types.UID {
+	if obj, ok := problem.Object.(metav1.Object); ok && obj != nil {
+		return obj.GetUID()
+	}
+	return ""
 }
 
 // IngressConfiguration holds an Ingress resource with its minions. It implements the Resource interface.
